@@ -84,9 +84,11 @@ func render(c Case, upto int) string {
 func valid(m *ref.Model, s Step) bool {
 	switch s.Op {
 	case "add_out":
-		return s.Msg != nil && m.CanAddOut(s.Msg.MID)
+		// a MID may be posted again (an edited draft replaces the outbox copy; a message that was sent once is
+		// queued again): the new copy is the outbox message, an older copy in sent stays until SetSent replaces it
+		return s.Msg != nil
 	case "process_inbound":
-		return s.Msg != nil && !m.SendOnly && m.In[s.Msg.MID] == nil
+		return s.Msg != nil && !m.SendOnly
 	case "set_sent", "set_deferred":
 		return m.Out[s.MID] != nil
 	case "set_unread":
@@ -260,7 +262,7 @@ type stats struct {
 	rejectSeen, p2ponly bool
 }
 
-var exhMIDs = []string{"EXHAUSTIVE01", "EXHAUSTIVE02"}
+var exhMIDs = []string{"EXHAUSTIVE01", "EXH.b2f.IV02"}
 var exhFws = [][]string{nil, {"LA1B"}}
 
 func run(c Case) (sig, msg string, st stats) {
@@ -396,7 +398,10 @@ func run(c Case) (sig, msg string, st stats) {
 
 // ---- generator -------------------------------------------------------------------------------------
 
-var mids = []string{"C10MID000001", "C10MID000002", "C10MID000003", "C10MID000004", "C10MID000005", "C10MID000006"}
+// the MID universe: plain identifiers and the shapes a file-name based store could trip over (dots inside, the
+// store's own extension inside, a trailing dot, punctuation, a single character); all are accepted by the
+// mailbox's MID check (no separator, no leading dot, no NUL, not empty)
+var mids = []string{"C10MID000001", "AB.CD0000002", "NOTE.b2f", "X-Y_Z+=@3", "A", "C10MID00006."}
 
 // four recipient identities, each in several spellings
 var identities = [][]string{
@@ -462,6 +467,12 @@ func genCase(t *rapid.T) Case {
 	c := Case{SendOnly: rapid.IntRange(0, 4).Draw(t, "send_only") == 0, Origin: "rapid"}
 	m := ref.NewModel()
 	m.SendOnly = c.SendOnly
+	reused := false
+	defer func() {
+		if reused {
+			harness.Label("history:MID-posted-again(while in outbox or sent)")
+		}
+	}()
 	add := func(s Step) {
 		if !valid(m, s) {
 			panic("generator produced an invalid step")
@@ -482,14 +493,26 @@ func genCase(t *rapid.T) Case {
 			add(Step{Op: "add_out", Msg: genMsg(t, mid, true)})
 		},
 		"add_out2": func(t *rapid.T) {
-			mid := pick(t, filter(mids, m.CanAddOut), "mid")
+			// every fourth time any MID: also one that is in the outbox (replaced) or in sent (queued again)
+			from := filter(mids, m.CanAddOut)
+			if rapid.IntRange(0, 3).Draw(t, "reuse") == 0 {
+				from = mids
+			}
+			mid := pick(t, from, "mid")
+			if !m.CanAddOut(mid) {
+				reused = true
+			}
 			add(Step{Op: "add_out", Msg: genMsg(t, mid, true)})
 		},
 		"process_inbound": func(t *rapid.T) {
 			if m.SendOnly {
 				t.Skip("send-only")
 			}
-			mid := pick(t, filter(mids, func(s string) bool { return m.In[s] == nil }), "mid")
+			from := filter(mids, func(s string) bool { return m.In[s] == nil })
+			if rapid.IntRange(0, 5).Draw(t, "again") == 0 {
+				from = mids // received again although it is in the inbox (the handler stores what it is handed)
+			}
+			mid := pick(t, from, "mid")
 			add(Step{Op: "process_inbound", Msg: genMsg(t, mid, false)})
 		},
 		"prepare": func(t *rapid.T) { add(Step{Op: "prepare"}) },
